@@ -77,6 +77,11 @@ def z_mod(a, b):
     ctx = PathCtx.cur
     if ctx is not None:
         ctx.add_axiom(z3.Implies(b > 0, z3.And(t >= 0, t < b)))
+        if z3.is_add(a):
+            # lemma instance (true of the real remainder): a sum of
+            # multiples of b is a multiple of b
+            parts = [IMOD(a.arg(i), b) == 0 for i in range(a.num_args())]
+            ctx.add_axiom(z3.Implies(z3.And(b > 0, *parts), t == 0))
     return t
 
 
